@@ -14,4 +14,4 @@ CONSTANTS
   Replays <- AllReplays
 INIT Init
 NEXT Next
-INVARIANTS TypeOK OnlyAuthentic NoVerifierRejects RealNotBypassed RejectKeepsState Complete Monotone CacheIsLastAccepted ReplayRejected ReplayAsFresh ReplayWellFormed KnownIsPresented ReplaySourced EmitHist
+INVARIANTS TypeOK OnlyAuthentic NoVerifierRejects RealNotBypassed RejectKeepsState Complete Monotone CacheIsLastAccepted ReplayRejected ReplayAsFresh ReplayWellFormed KnownIsPresented ReplaySourced FloorIsOfColdKey ProbesTellFloor CounterFloorSurvivesChurn EmitHist
